@@ -540,7 +540,7 @@ static const unsigned char pem_badchars[] = { '*', 0x01, 0x80, 0xff, ' ', '\t', 
 
 enum { PE_LABEL0 = 0, PE_NLABEL = PEM_NLABELS * 3, PE_META0 = PE_LABEL0 + PE_NLABEL, PE_NMETA_ALL = PEM_NMETA * 3,
        PE_BAD0 = PE_META0 + PE_NMETA_ALL, PE_NBADALL = PEM_NBAD * PEM_NPOS, PE_MISC0 = PE_BAD0 + PE_NBADALL, PE_NMISC = 40,
-       PEM_NEDITS = PE_MISC0 + PE_NMISC };
+       PE_ENCBODY0 = PE_MISC0 + PE_NMISC, PE_NENCBODY = 4 * 12, PEM_NEDITS = PE_ENCBODY0 + PE_NENCBODY };
 
 /* build PEM edit idx of text seed b; returns 0 when not applicable */
 static int pem_mutate(const unsigned char *b, size_t len, const pemloc_t *L, int idx, mbuf_t *out, const char **cls, char *detail, size_t dn)
@@ -608,6 +608,29 @@ static int pem_mutate(const unsigned char *b, size_t len, const pemloc_t *L, int
         mb_addc(out, pem_badchars[ci]);
         mb_add(out, b + L->body0 + at, len - (L->body0 + at));
         snprintf(detail, dn, "byte %02x inserted at body offset %zu of %zu", pem_badchars[ci], at, bl);
+        return 1;
+    }
+    if (idx >= PE_ENCBODY0)
+    {
+        /* encryption header x ciphertext size: the body is replaced by the base64 of N bytes, N around the block sizes of
+           the cipher the header names (a ciphertext that is not a whole number of blocks, shorter than one block, empty) */
+        static const char *hd[4] = {
+            "Proc-Type: 4,ENCRYPTED\nDEK-Info: DES-EDE3-CBC,0123456789ABCDEF\n\n",
+            "Proc-Type: 4,ENCRYPTED\nDEK-Info: AES-128-CBC,0123456789ABCDEF0123456789ABCDEF\n\n",
+            "Proc-Type: 4,ENCRYPTED\nDEK-Info: AES-256-CBC,0123456789ABCDEF0123456789ABCDEF\n\n",
+            "Proc-Type: 4,ENCRYPTED\nDEK-Info: AES-128-CBC,0123456789ABCDEF0123456789ABCDEF\n",   /* no blank line */
+        };
+        static const int sizes[12] = { 0, 1, 4, 7, 8, 9, 15, 16, 17, 24, 32, 40 };
+        int hi = (idx - PE_ENCBODY0) / 12, n = sizes[(idx - PE_ENCBODY0) % 12];
+        unsigned char raw[40];
+        *cls = "pem-encrypted-body-size";
+        for (i = 0; i < (size_t) n; i++) raw[i] = (unsigned char) (0x11 * (i + 1));
+        mb_add(out, b, L->meta0);
+        mb_adds(out, hd[hi]);
+        if (n > 0) b64enc(out, raw, (size_t) n, 64);
+        mb_addc(out, '\n');
+        mb_add(out, b + L->ftr0, len - L->ftr0);
+        snprintf(detail, dn, "encryption header %d with a body of %d bytes", hi, n);
         return 1;
     }
     *cls = "pem-misc";
